@@ -1325,7 +1325,9 @@ RULE = (
     "_CHUNK_SIZE in {1,16,64,8192}. The workload runs once fault-free "
     "(checked against an independent row model) and then once per (raw I/O "
     "call index x applicable fault kind in {open_fail, write_fail, "
-    "short, close_fail, crash}) plus 6 line-level interrupts, "
+    "short, close_fail, crash; rename/remove/fsync/truncate kinds if the code "
+    "under test uses those calls}) plus 6 line-level interrupts, and for up to "
+    "two first-fault points a SECOND fault at every raw call of the recovery op, "
     "each in its own fork taken after the sources were parsed. evaluations = "
     "workloads; a workload is NON-TRIVIAL iff it appended to an existing "
     "file, reopened a writer, or wrote a non-empty list-, int-list-, "
